@@ -50,6 +50,8 @@ def gen_script(rng, tier):
             ps.append((200, 0))
         if rng.random() < 0.2 and api in ("compress2",):
             ps.append((1002, rng.choice([1, 2])))                 # literal compression mode
+        if rng.random() < 0.35 and api in ("compress2", "compressCCtx", "stream", "bufferlessEnd") and lvl < 13:
+            ps.append((1010, 1)); n = max(n, rng.choice([60000, 140000, 300000]))     # block splitter on, a block that really splits
         if api == "mt":
             ps += [(400, rng.choice([1, 2, 3])), (401, 1)]
         L.append("CSWEEP %s %s %d %d %d %s" % (api, rng.choice(KINDS), n, rng.randint(1, 9999), len(ps), " ".join("%d %d" % kv for kv in ps)))
